@@ -68,9 +68,20 @@ def mkbus(groups=None):
     return u, v, G.Bus([u, v])
 
 
+AFORM = None        # "sub": address objects are instances of an application subclass of the library's address classes
+_SUBS = {}
+
+
 def mkdest(kind):
     from dali.address import GearShort, GearGroup, GearBroadcast
-    return {"short": GearShort(SA), "int": SA, "group": GearGroup(GRP), "broadcast": GearBroadcast()}[kind]
+
+    def mk(cls, *args):
+        if AFORM == "sub":
+            if cls not in _SUBS:
+                _SUBS[cls] = type("Labelled" + cls.__name__, (cls,), {"label": "luminaire"})
+            return _SUBS[cls](*args)
+        return cls(*args)
+    return {"short": lambda: mk(GearShort, SA), "int": lambda: SA, "group": lambda: mk(GearGroup, GRP), "broadcast": lambda: mk(GearBroadcast)}[kind]()
 
 
 def check_set(res, dest, val):
@@ -160,13 +171,13 @@ def check_query(res, selector, val, fault=None):
 def run_addr_sweep(res, lo, hi):
     """The same set / limit / query addressed to every short address (object and integer) and every group:
     nothing may depend on WHICH unit is addressed."""
-    global SA, GRP
+    global SA, GRP, AFORM
     from dali.gear.colour import QueryColourValueDTR, StoreColourTemperatureTcLimitDTR2
     sel = [m for m in QueryColourValueDTR if m.name == "ColourTemperatureTC"][0]
     old = SA, GRP
     try:
-        for sa in range(lo, hi):
-            SA, GRP = sa, sa % 16
+        for sa, aform in [(a, None) for a in range(lo, hi)] + [(a, "sub") for a in range(lo, hi) if a % 16 in (0, 5, 15)]:
+            SA, GRP, AFORM = sa, sa % 16, aform
             n0 = len(res["violations"])
             for dest in ("short", "int", "group", "broadcast"):
                 for val in (0x00C8, 0x0172, 0x01FF):
@@ -182,6 +193,7 @@ def run_addr_sweep(res, lo, hi):
             res["states"] += 20
     finally:
         SA, GRP = old
+        AFORM = None
     res["distinct"].add(("addr_sweep", lo))
     sample(res, {"address_sweep": [lo, hi - 1], "groups": "sa mod 16"})
 
